@@ -539,6 +539,81 @@ Theorem fresh_of_template e t :
   names_fine e -> in_grammar07 t = true -> forallb item16_ok t = true -> NoDup (keys07 e t) ->
   wf_fresh_file (flat_map (ref_item16 e) t) = true.
 Proof.
-  intros Hn Ht Hg Hk. destruct (oitems_spec e Hn t Ht Hg) as (L & G & K).
+  intros Hn Ht Hg Hk. unfold in_grammar07 in Ht. apply andb_prop in Ht as [Ht _]. destruct (oitems_spec e Hn t Ht Hg) as (L & G & K).
   rewrite <- L. apply good_fresh; [exact G|rewrite K; exact Hk].
+Qed.
+
+(* ---------------------------------------------------------------- admissible names make the per-instance conditions of C16 true *)
+Lemma ident_no_lg s : allc identc s = true -> no_lg s = true.
+Proof.
+  induction s as [|c s IH]; [reflexivity|]. cbn [allc no_lg]. intros H. apply andb_prop in H as [Hc Hs]. rewrite (IH Hs), andb_true_r.
+  apply negb_true_iff. unfold is_lg. destruct (Ascii.eqb c Engine.LT) eqn:E1; [apply Ascii.eqb_eq in E1; subst c; discriminate|].
+  destruct (Ascii.eqb c Engine.GT) eqn:E2; [apply Ascii.eqb_eq in E2; subst c; discriminate|]. reflexivity.
+Qed.
+
+Lemma vals_ident_no_lg tb : vals_ident tb = true -> forallb (fun kv : string * string => no_lg (snd kv)) tb = true.
+Proof. unfold vals_ident. apply forallb_impl. intros kv H. apply ident_no_lg. exact H. Qed.
+
+Lemma all_ws_app a b : all_ws (a ++ b)%string = all_ws a && all_ws b.
+Proof. induction a as [|c a IH]; [reflexivity|]. cbn [append all_ws]. rewrite IH. apply andb_assoc. Qed.
+
+Lemma ink_copy tb : forall l, has_ink l = true -> all_ws (render_body (map (subst16 tb) l)) = false.
+Proof.
+  induction l as [|g l IH]; [discriminate|]. cbn [has_ink existsb]. intros H. cbn [map render_body]. rewrite all_ws_app.
+  apply orb_prop in H as [H|H].
+  - destruct g as [s|n d]; [|discriminate]. cbn [subst16 render_seg]. apply negb_true_iff in H. rewrite H. reflexivity.
+  - fold (has_ink l) in H. rewrite (IH H). apply andb_false_r.
+Qed.
+
+Lemma unmodelled_start_lt : forallb starts_lt unmodelled_tags = true.
+Proof. vm_compute. reflexivity. Qed.
+
+Lemma tagfree_unmodelled s : tagfree s = true -> unmodelled s = false.
+Proof.
+  intros H. unfold unmodelled. pose proof unmodelled_start_lt as U. revert U. generalize unmodelled_tags.
+  induction l as [|t l IH]; [reflexivity|]. cbn [forallb existsb]. intros U. apply andb_prop in U as [U1 U2].
+  rewrite (tagfree_specific s t H), (tagfree_contains t s U1 H), (IH U2). reflexivity.
+Qed.
+
+Section BlockWf.
+  Context {A : Type}.
+  Variables (tb : A -> nat -> list (string * string)) (keys : list string).
+  Hypothesis Hkeys : forall x i, map fst (tb x i) = keys.
+
+  Lemma block_wf_names items body :
+    forallb (body_line_ok keys) body = true -> forallb has_ink body = true ->
+    (forall x i, In x items -> vals_ident (tb x i) = true) ->
+    block_wf tb items body = true.
+  Proof.
+    intros Hb Hi Hv. unfold block_wf.
+    assert (G : forall its k, (forall x, In x its -> In x items) ->
+      forallb (fun ix => forallb (fun kv => no_lg (snd kv)) (tb (snd ix) (fst ix))
+                         && forallb (fun l => let out := render_line (map (subst16 (tb (snd ix) (fst ix))) l) in
+                                              negb (isspace out) && negb (unmodelled out)) body) (enumerate_from k its) = true).
+    { induction its as [|x its IH]; intros k Hs; [reflexivity|]. cbn [enumerate_from forallb fst snd].
+      apply andb_true_intro. split; [|exact (IH (S k) (fun y Hy => Hs y (or_intror Hy)))].
+      pose proof (Hv x k (Hs x (or_introl eq_refl))) as Hx. pose proof (vals_ident_no_lg _ Hx) as Hl.
+      apply andb_true_intro. split; [exact Hl|].
+      clear IH. revert Hb Hi. induction body as [|l body IHb]; intros Hb Hi; [reflexivity|].
+      cbn [forallb] in Hb, Hi. apply andb_prop in Hb as [B1 B2]. apply andb_prop in Hi as [I1 I2].
+      cbn [forallb]. rewrite (IHb B2 I2), andb_true_r.
+      unfold body_line_ok in B1. repeat (apply andb_prop in B1 as [B1 ?K]).
+      assert (Tf : tagfree (render_line (map (subst16 (tb x k)) l)) = true).
+      { apply copy_tagfree; [exact B1|rewrite Hkeys; exact K2|exact Hl]. }
+      rewrite (tagfree_unmodelled _ Tf). cbn [negb]. rewrite andb_true_r. apply negb_true_iff.
+      unfold isspace, render_line. rewrite all_ws_app, (ink_copy _ l I1). apply andb_false_r. }
+    apply G. auto.
+  Qed.
+End BlockWf.
+
+Theorem names_wf16 e t :
+  names_fine e -> forallb item16_ok t = true -> inky t = true -> wf_elements16 t e = true.
+Proof.
+  intros Hn Hg Hi. unfold wf_elements16, inky in *. induction t as [|it t IH]; [reflexivity|].
+  cbn [forallb] in *. apply andb_prop in Hg as [G1 G2]. apply andb_prop in Hi as [I1 I2]. rewrite (IH G2 I2), andb_true_r.
+  destruct it as [l|s|k ib ie body|ib ie body]; cbn [item16_wf item16_ok] in *; try reflexivity.
+  - apply andb_prop in G1 as [_ G1]. apply (block_wf_names (table_of_kind k) (keys_of k) (keys_same k)); try assumption.
+    intros x i Hx. apply kind_table_ident. exact (items_names e k x Hn Hx).
+  - apply andb_prop in G1 as [_ G1]. apply (block_wf_names sig_table sig_keys sig_keys_same); try assumption.
+    intros x i Hx. destruct (sigs_names e x Hn Hx). apply sig_table_ident; assumption.
 Qed.
